@@ -149,6 +149,8 @@ SHAPES = [
     _shape("cyclic-context", "def fail(exc, msg):\n    a = exc(msg)\n    b = KeyError('k')\n    a.__context__ = b\n    b.__context__ = a\n    raise a\n"),
     _shape("self-cause", "def fail(exc, msg):\n    a = exc(msg)\n    a.__cause__ = a\n    raise a\n"),
     _shape("context-chain-1500", "def fail(exc, msg):\n    a = exc(msg)\n    cur = a\n    for i in range(1500):\n        nxt = ValueError('level %d' % i)\n        cur.__context__ = nxt\n        cur = nxt\n    raise a\n"),
+    _shape("multi-line-call-in-outer-frame", "def inner(exc, msg):\n    raise exc(msg)\n\n\ndef fail(exc, msg):\n    return inner(\n        exc,\n        msg,\n    )\n"),
+    _shape("open-bracket-line-in-outer-frame", "def inner(exc, msg):\n    raise exc(msg)\n\n\ndef fail(exc, msg):\n    values = [\n        inner(exc, msg),\n        2,\n    ]\n    return values\n"),
     _shape("message-with-source-markup", "def fail(exc, msg):\n    raise exc(msg + ' <info>src</info>')\n"),
     _shape("long-line", "def fail(exc, msg):\n    raise exc(msg)  # " + "x" * 300 + "\n"),
     _shape("multi-line-string-on-failing-line", 'def fail(exc, msg):\n    raise exc(msg + """\n    tail""")\n'),
